@@ -5,6 +5,8 @@ package commonspace
 import (
 	"context"
 
+	"github.com/anyproto/any-sync/app"
+	"github.com/anyproto/any-sync/commonspace/spacestate"
 	"github.com/anyproto/any-sync/commonspace/spacestorage"
 	"github.com/anyproto/any-sync/net/peer"
 )
@@ -22,4 +24,18 @@ func VerifSpacePullWithPeer(ctx context.Context, provider spacestorage.SpaceStor
 func VerifCreateSpaceStorage(ctx context.Context, provider spacestorage.SpaceStorageProvider, payload spacestorage.SpaceStorageCreatePayload) (spacestorage.SpaceStorage, error) {
 	s := &spaceService{storageProvider: provider}
 	return s.createSpaceStorage(ctx, payload)
+}
+
+// VerifSpaceInit starts a space's child container the way space.Init does and reports the error of the start. When
+// the container started, Init goes on to look up the space's standard components, which a harness container does not
+// have (MustComponent panics): that panic is what "started" looks like here and is reported as started = true.
+func VerifSpaceInit(ctx context.Context, child *app.App) (err error, started bool) {
+	s := &space{app: child, state: &spacestate.SpaceState{SpaceId: "verif-space"}}
+	defer func() {
+		if r := recover(); r != nil {
+			err, started = nil, true
+		}
+	}()
+	err = s.Init(ctx)
+	return err, err == nil
 }
